@@ -20,6 +20,8 @@ def mk(t):
          'date': datetime.strptime(t['d'], '%Y-%m-%d'), 'source': t.get('src', 'S'), 'description': t.get('desc', t['m'].upper())}
     if t['tags'] is not None:
         d['tags'] = list(t['tags'])
+    if t.get('extra'):
+        d['extra_fields'] = json.loads(json.dumps(t['extra']))
     return d
 
 
